@@ -575,4 +575,12 @@ func runRace(rep *Report, rng *rand.Rand, n int, thorough bool) error {
 
 type raceHealth struct{}
 
-func (raceHealth) Check(ctx context.Context) bool { return time.Now().UnixNano()%7 != 0 }
+// (now and then the check takes longer than a heartbeat interval and pays no attention to its context: the term may end,
+// and the next begin, while the heartbeat goroutine of the old one is still in here)
+func (raceHealth) Check(ctx context.Context) bool {
+	n := time.Now().UnixNano()
+	if n%5 == 0 {
+		time.Sleep(time.Duration(20+n%100) * time.Millisecond)
+	}
+	return n%7 != 0
+}
